@@ -100,7 +100,7 @@ def probe(run, h, pts, batch, rng, name, kind, hexs, layout, model_term, sample=
         run.count("challenge recomputed with the Gallina SHA3")
     if model_term:
         def cmp(r, case=case, chunks=chunks, ctx=ctx):
-            run.check_corr("corr.C12.chunks_of_" + name.split("<")[0], concretize_atoms(pts, r) + [ctx.hex()] == chunks,
+            run.check_corr("corr.C12.chunks_of_" + name.split("<")[0], "".join(concretize_atoms(pts, r) + [ctx.hex()]) == "".join(chunks),
                            dict(case, recorded=len(chunks)))
         batch.add(model_term, cmp)
     atoms = [a for a in atoms_of(layout, hexs) if a[3] is not None]
